@@ -135,6 +135,8 @@ def random_spec(rng):
             spec["excludes"] = "mg"
         if rng.random() < 0.3:
             spec["group"] = "mg"
+        elif rng.random() < 0.2:
+            spec["group"] = "xmg"        # a group whose name merely *contains* the other group's name
         if rng.random() < 0.25:
             spec["inclusive"] = False
         if rng.random() < 0.3:
@@ -153,6 +155,8 @@ def random_spec(rng):
             return "_"
         if r < 0.7:
             return ""
+        if r < 0.8 and any((v.get("group") or "") == "mg" for v in marks.values()):
+            return "mg"
         return " ".join(rng.sample(mark_names, rng.randint(1, len(mark_names))))
 
     inline_names = ["text"]
@@ -190,7 +194,7 @@ def random_spec(rng):
         blocks.append((name, 0))
     for i in range(n_leafb):
         name = "lf%d" % i
-        spec = {"group": "block"}
+        spec = {"group": "block" if rng.random() < 0.7 else "subblock"}
         if rng.random() < 0.3:
             spec["attrs"] = {"q": {}}
         order.append((name, spec))
